@@ -535,3 +535,39 @@ def check_C10(c):
     c.assumptions += ["the argument of a custom RealPath resolver and a symlink's target text are passed verbatim by design (checked as such)",
                       "SFTP codes wrapped in os error types, and EOF inside os wrappers, are outside the property's wording and not enumerated"]
     return c.finish()
+
+
+def check_C17(c):
+    c.model("ModesEnum", "ModesEnum.cfg", note="theorems over the FULL domains: FromWire(ToWire(m)) = m for all 28672 modes, ToWire(FromWire(w)) = w for all wire words with a known type, ChmodPerm")
+    c.cov["exhaustive"] = True
+    rc, out, path = c.run("TestVerif_ModesTable", timeout=3000)
+    ev = vlib.read_ndjson(path)
+    n = sum(1 for e in ev if e.get("ev") in ("W", "M"))
+    c.cov["evaluations"] += n
+    c.cov["distinct_nontrivial"] += n
+    found = c.validate("TraceModes", "TraceModes.cfg", path)
+    rc, out, path2 = c.run("TestVerif_ModesFS", timeout=3000)
+    ev2 = vlib.read_ndjson(path2)
+    n2 = sum(1 for e in ev2 if e.get("ev") in ("FsStat", "Setstat", "LongName"))
+    c.cov["evaluations"] += n2
+    c.cov["distinct_nontrivial"] += n2
+    skipped = [e.get("skipped") for e in ev2 if e.get("ev") == "Note" and e.get("skipped")]
+    c.cov["harness"]["file_kinds_not_creatable"] = skipped
+    found += c.validate("TraceModes", "TraceModes.cfg", path2)
+    c.cov["rule"] = ("all 65536 wire mode words through toFileMode/isRegular/FileMode.String and all 28672 os modes (7 types x 512 permissions x 8 special-bit sets) through fromFileMode/"
+                     "toChmodPerm and back (exhaustive); Stat/Lstat/ReadDir of every file kind the host can create against os.Lstat, long names of listed entries against their attributes, "
+                     "SETSTAT/FSETSTAT with all 16 flag subsets on file/dir/symlink targets")
+    for f in found:
+        e = f["line"]
+        msg = f["state"].get("c17", "").strip('"')
+        key = "Inv_C17,%s" % e.get("ev")
+        if e.get("ev") in ("W", "M"):
+            key += ",typ=%s" % (e.get("typ"))
+        elif e.get("ev") == "Setstat":
+            key += ",via=%s,flags=%s,target=%s" % (e.get("via"), e.get("flags"), e.get("target"))
+        elif e.get("ev") == "FsStat":
+            key += ",via=%s,name=%s" % (e.get("via"), e.get("name"))
+        c.violation(key, "%s: %s" % (msg, json.dumps(e)[:300]), {"module": "TraceModes", "case": e, "tlc": msg})
+    c.assumptions += ["os.FileMode is logged in structured form (type, permission, special bits): TLC integers are 32 bit",
+                      "file-system part runs as root on this kernel/file system; kinds that cannot be created are listed in the evidence"]
+    return c.finish()
